@@ -151,6 +151,17 @@ func verifDefaultPort(out *verifkit.Trace, sim *verifsim.Sim, rng *rand.Rand) {
 				out.Emit(verifkit.M{"ev": "noconn", "conns": len(conns) - 1})
 			}
 		}
+		/* port numbers that are no port numbers: nothing may be dialled for them - in particular not the
+		   default port, which is what they are congruent to modulo 2^16 or 2^32 */
+		for i, port := range []string{"4294967739", "8589935035", "65979", "65536", "18446744073709552059", "99999"} {
+			typed := "https://" + st.authority + ":" + port + fmt.Sprintf("/dp/%d/0", k)
+			before := sim.ConnCount()
+			verifkit.Try(func() { FetchUserInput(typed) })
+			sim.Quiesce(time.Second)
+			conns := sim.Conns()[before:]
+			out.Emit(verifkit.M{"ev": "case", "id": 210000 + 10*k + i, "mode": 12, "desc": typed, "conns": len(conns)})
+			out.Emit(verifkit.M{"ev": "noconn", "conns": len(conns)})
+		}
 	}
 }
 
